@@ -154,7 +154,16 @@ CHECKS["C16"] = {
     "text": "Proof (Coq) of the dispatch logic over the finite format x destination grid: every destination kind is read "
             "back by the format's own reader, every other reader rejects it, and prov.read's trial loop — with the registry "
             "order generated from /repo and, as repaired, every attempt seeing the whole content — returns the right format; "
-            "the pre-repair loop is refuted in the model (XML/TriG on streams -> empty document). The parsers are oracles with "
+            "the pre-repair loop is refuted in the model (XML/TriG on streams -> empty document). The text/bytes dispatch of "
+            "ProvDocument.serialize / deserialize, of the four serializers and of prov.read is modelled branch by branch "
+            "(IODispatch.v) and proved for every payload: what is written is the payload for a returned string and a text "
+            "stream and exactly its UTF-8 bytes for a binary stream and a file (C16_same_text); for every destination kind x "
+            "source kind the format's parser is handed that payload (C16_same_parser_input, C16_json_parser_gets_text, "
+            "C16_xml_parser_gets_bytes); prov.read tries the registry's formats on the whole content and the right one is handed "
+            "the payload (C16_read_detects) — under the round-trip law of the runtime's UTF-8 codec and a UTF-8 locale (premises). "
+            "That dispatch is tied per run: for all 60 format x destination x source cells the kind written and what json.load / "
+            "etree.parse / ConjunctiveGraph.parse are handed (observed by wrapping them) must be what the model predicts and be "
+            "the payload. The parsers are oracles with "
             "recorded laws, validated on every run. Tie: the full grid (4 formats x 4 destinations x 10 ways of reading) is "
             "executed on generated documents with non-ASCII content and compared by strict content (partial: UTF-8 coding "
             "and file I/O are the runtime's).",
